@@ -11,7 +11,7 @@ python3 - "$ID" "$NOTE" <<'PY'
 import json,sys,subprocess
 id,note=sys.argv[1],sys.argv[2]
 m=json.load(open(f'/tmp/seed_out/{id}/meta.json'))
-m['confirmed_by_me']={'what_i_ran':[f"tools/seed_verify.sh {id}: demo fails with the change, passes with src/ stashed, existing suite (3+35+43) passes with the change", f"tools/seed_run.sh seeded/{id}/patch.diff <checks>: applied to /repo, ran the quick checks, undone with git checkout"],'result':note,'repo_head':subprocess.check_output(['git','-C','/repo','rev-parse','--short','HEAD']).decode().strip()}
+m['confirmed_by_me']={'what_i_ran':[f"tools/seed_verify.sh {id}: demo fails with the change, passes with src/ stashed, existing suite (3+35+43) passes with the change", f"tools/seed_run.sh /verif/seeded/{id}/patch.diff <checks>: applied to /repo, ran the quick checks, undone with git checkout"],'result':note,'repo_head':subprocess.check_output(['git','-C','/repo','rev-parse','--short','HEAD']).decode().strip()}
 m['demo_cmd']=m['demo_cmd'].replace(f'/tmp/seed_{id}','<worktree with seeded/%s/patch.diff applied and seed_demo.rs copied to tests/>'%id)
 json.dump(m,open(f'/verif/seeded/{id}/meta.json','w'),indent=1)
 PY
